@@ -24,10 +24,11 @@ type OracleC09 struct {
 	// "nodes catch up from recovery messages": set before a recovery message is handed to a
 	// node that has nothing of its current view yet and must take the proposal out of it
 	recPre *Payload
+	liftTo int // >= 0: the receiver of this call must end it in this view or above (second step rule)
 }
 
 func NewOracleC09(s *Sim) *OracleC09 {
-	o := &OracleC09{s: s, K: 3, viaRecovery: map[hv]bool{}}
+	o := &OracleC09{s: s, K: 3, viaRecovery: map[hv]bool{}, liftTo: -1}
 	for _, k := range s.sc.Fault {
 		if k == FSilent {
 			o.silent++
@@ -99,8 +100,46 @@ func (o *OracleC09) OnOut(n *Node, st *Step, out *Out) {
 	}
 }
 
+// liftRule: "nodes catch up from recovery messages" also means the view.  A recovery message
+// that an honest validator sent from view v >= 1 carries the M change-view requests that took
+// it there; a voting validator in a lower view that has no (pre)commit of its own and is given
+// that message is in a higher view than before when the call returns (in view v, unless it
+// already held requests for a view in between).
+func (o *OracleC09) liftRule(n *Node, st *Step) {
+	o.liftTo = -1
+	s := o.s
+	d := n.d
+	if d == nil || st.Op != OpReceive || st.P == nil || st.P.T != dbft.RecoveryMessageType || !n.judged() {
+		return
+	}
+	p := st.P
+	rm, ok := p.Body.(*RecMsg)
+	if !ok || rm.Lax || p.H != d.BlockIndex || p.V <= d.ViewNumber || int(p.Idx) >= len(d.Validators) || int(p.Idx) == d.MyIndex {
+		return
+	}
+	if d.MyIndex < 0 || n.flagWO || n.accepted || d.BlockSent() || d.CommitSent() || d.PreCommitSent() {
+		return
+	}
+	honest := false
+	for _, m := range s.nodes {
+		if m.kind == FHonest && s.sc.IndexAt(p.H, m.ident) == int(p.Idx) {
+			honest = true
+		}
+	}
+	if !honest {
+		return
+	}
+	for _, a := range s.authentic {
+		if a.T == dbft.RecoveryMessageType && a.H == p.H && a.V == p.V && a.Idx == p.Idx && a.Hash() == p.Hash() {
+			o.liftTo = int(p.V)
+			return
+		}
+	}
+}
+
 func (o *OracleC09) BeforeCall(n *Node, st *Step) {
 	o.recPre = nil
+	o.liftRule(n, st)
 	s := o.s
 	d := n.d
 	if d == nil || st.Op != OpReceive || st.P == nil || st.P.T != dbft.RecoveryMessageType || s.sc.VerdictPM > 0 {
@@ -151,6 +190,23 @@ func (o *OracleC09) BeforeCall(n *Node, st *Step) {
 }
 
 func (o *OracleC09) AfterCall(n *Node, st *Step) {
+	if v := o.liftTo; v >= 0 {
+		o.liftTo = -1
+		if d := n.d; d != nil && st.Panic == nil && st.PostBI == st.PreBI && !n.accepted && !d.BlockSent() {
+			// (at least one view up: a receiver that already held requests for a view in between
+			// completes that quorum first, the move consumes the request that completed it and the
+			// rest of the message is one request short of the next quorum - the next message does it)
+			if st.PostV <= st.PreV {
+				o.s.Violate("C09", "not_lifted_by_recovery_message", fmt.Sprintf("%s at height %d view %d (no vote of its own) was given the recovery message that honest validator %d sent from view %d and is still in view %d afterwards: the message must carry the change-view requests that justify its sender's view, a lagging validator cannot catch up from recovery messages otherwise", n, st.PreBI, st.PreV, st.P.Idx, v, st.PostV), n.id)
+				return
+			}
+			if int(st.PostV) >= v {
+				o.s.note("lifted_to_the_senders_view_by_recovery_message")
+			} else {
+				o.s.note("lifted_part_of_the_way_by_recovery_message")
+			}
+		}
+	}
 	if e := o.recPre; e != nil {
 		o.recPre = nil
 		if d := n.d; d != nil && st.Panic == nil && st.PostBI == st.PreBI && st.PostV == e.V && !n.accepted && !d.BlockSent() && !d.ViewChanging() && (st.PreV == e.V || (!d.CommitSent() && !d.PreCommitSent())) {
